@@ -6,7 +6,7 @@ CONSTANTS
   K = 2
   ByName = TRUE
   SkipPingWhenBusy = FALSE
-  KeyByIdentity = FALSE
+  KeyByIdentity = TRUE
 INVARIANT Converges
 INVARIANT Refreshed
 CHECK_DEADLOCK FALSE
